@@ -47,7 +47,9 @@ type BatchCfg struct {
 	ModeSet  bool  // error-handling mode was set explicitly
 	Barrier  []int // barrier schedule: the items (1-based) that wait for each other; all others return at once
 	ErrItems []int // items (1-based) that prep hands over as error Results (they are items like any other)
+	After    bool  // the same node object performs another run afterwards; the lists handed to post are looked at again
 	WarmC    int   // > 0: the same node object first performs a run with this concurrency, then is reconfigured
+	WarmN    int   // > 0: ... and with this retry budget
 	Procs    int   // > 0: run the scenario with GOMAXPROCS limited to this value
 }
 
@@ -56,7 +58,7 @@ func parseBatchCfg(m map[string]any) BatchCfg {
 		Fb: asBool(m["fb"]), Ctx0: asBool(m["ctx0"]), Cancel: asBool(m["cancel"]), PrepErr: asBool(m["preperr"]),
 		PostErr: asBool(m["posterr"]), Gated: asBool(m["gated"]), Strict: asBool(m["strict"]),
 		Shape: asStr(m["shape"]), ExSty: asStr(m["exsty"]), Via: asStr(m["via"]), Sched: asStr(m["sched"]),
-		CtxKind: asStr(m["ctxkind"]), GenSeed: asStr(m["genseed"]), WarmC: asInt(m["warmc"]), Procs: asInt(m["procs"])}
+		CtxKind: asStr(m["ctxkind"]), GenSeed: asStr(m["genseed"]), WarmC: asInt(m["warmc"]), Procs: asInt(m["procs"]), After: asBool(m["after"]), WarmN: asInt(m["warmn"])}
 	for _, a := range asList(m["barrier"]) {
 		c.Barrier = append(c.Barrier, asInt(a))
 	}
@@ -107,7 +109,7 @@ func (c BatchCfg) toJSON() map[string]any {
 	return map[string]any{"N": c.N, "n": c.Items, "c": c.C, "stopmode": c.StopMode, "w": c.W, "fb": c.Fb, "ctx0": c.Ctx0,
 		"cancel": c.Cancel, "acts": acts, "outs": outs, "preperr": c.PrepErr, "posterr": c.PostErr, "gated": c.Gated,
 		"strict": c.Strict, "shape": c.Shape, "exsty": c.ExSty, "via": c.Via, "sched": c.Sched, "ctxkind": c.CtxKind, "genseed": c.GenSeed,
-		"barrier": bar, "warmc": c.WarmC, "erritems": eit, "procs": c.Procs}
+		"barrier": bar, "warmc": c.WarmC, "erritems": eit, "procs": c.Procs, "after": c.After, "warmn": c.WarmN}
 }
 
 // ---- script ----------------------------------------------------------------
@@ -240,7 +242,9 @@ type batchRun struct {
 	rng         *rand.Rand
 	barrier     chan struct{}
 	inBarrier   map[int]bool
-	warm        bool // the warm-up run is in progress: callbacks do not log
+	warm        bool          // the warm-up run is in progress: callbacks do not log
+	keptItems   []flyt.Result // the very slices post was handed (a caller may keep them)
+	keptResults []flyt.Result
 	barrierN    int
 	barrierOnce sync.Once
 	stuck       bool
@@ -352,6 +356,10 @@ func (b *batchRun) exec(arg Obs) (any, error, error) {
 			}
 			time.Sleep(150 * time.Microsecond) // ... and an in-flight item succeeds shortly afterwards
 		}
+	case b.cfg.Sched == "hold":
+		// every attempt takes three times the retry wait: an item that is waiting between two attempts finds
+		// its neighbours still busy when the wait is over
+		time.Sleep(time.Duration(3*b.cfg.W) * time.Millisecond)
 	case b.cfg.Sched == "free":
 		// unsynchronised: a short random pause to shuffle completion orders
 		b.mu.Lock()
@@ -368,6 +376,11 @@ func (b *batchRun) exec(arg Obs) (any, error, error) {
 		ev["val"] = valTok(item, k)
 		b.log(ev)
 		return b.reg.Payload(valTok(item, k)), nil, nil
+	}
+	if o.Out == "nil" {
+		// a successful attempt whose value is nil: an outcome like any other
+		b.log(ev)
+		return nil, nil, nil
 	}
 	ev["err"] = errTok(item, k)
 	b.log(ev)
@@ -442,6 +455,24 @@ func (b *batchRun) post(shared *flyt.SharedStore, items, results []flyt.Result) 
 		return flyt.DefaultAction, nil
 	}
 	o := b.sc.Post
+	b.keptItems, b.keptResults = items, results
+	its, slots := b.observeLists(items, results)
+	ev := Event{"ev": "bpost", "sok": shared == b.store, "items": its, "slots": slots, "out": o.Out, "act": 0, "err": 0, "cancel": o.Cancel}
+	if o.Cancel {
+		b.cancel()
+	}
+	if o.Out == "ok" {
+		ev["act"] = o.Act
+		b.log(ev)
+		return actName(o.Act), nil
+	}
+	ev["err"] = postErrTok
+	b.log(ev)
+	return "", b.reg.Err(postErrTok)
+}
+
+// observeLists: what the item list and the result list look like right now
+func (b *batchRun) observeLists(items, results []flyt.Result) ([]any, []any) {
 	its := []any{}
 	for _, r := range items {
 		ob := b.reg.ObserveResult(r)
@@ -466,18 +497,7 @@ func (b *batchRun) post(shared *flyt.SharedStore, items, results []flyt.Result) 
 		}
 		slots = append(slots, s)
 	}
-	ev := Event{"ev": "bpost", "sok": shared == b.store, "items": its, "slots": slots, "out": o.Out, "act": 0, "err": 0, "cancel": o.Cancel}
-	if o.Cancel {
-		b.cancel()
-	}
-	if o.Out == "ok" {
-		ev["act"] = o.Act
-		b.log(ev)
-		return actName(o.Act), nil
-	}
-	ev["err"] = postErrTok
-	b.log(ev)
-	return "", b.reg.Err(postErrTok)
+	return its, slots
 }
 
 // typed payloads for the non-[]Result prep shapes
@@ -784,12 +804,18 @@ func runBatchScenario(cfg BatchCfg, sc *BatchScript, seed int64) []Event {
 		}
 	}
 	bn := b.build()
-	if cfg.WarmC > 0 {
-		// the same node object has been run before with another concurrency level
+	if cfg.WarmC > 0 || cfg.WarmN > 0 {
+		// the same node object has been run before with another concurrency level / retry budget
 		b.warm = true
-		bn.WithBatchConcurrency(cfg.WarmC)
+		if cfg.WarmC > 0 {
+			bn.WithBatchConcurrency(cfg.WarmC)
+		}
+		if cfg.WarmN > 0 {
+			bn.WithMaxRetries(cfg.WarmN)
+		}
 		flyt.Run(context.Background(), bn, b.store)
 		bn.WithBatchConcurrency(cfg.C)
+		bn.WithMaxRetries(cfg.N)
 		b.warm = false
 		b.mu.Lock()
 		b.events, b.att, b.nItemEv, b.gids = nil, map[int]int{}, 0, map[int64]int{}
@@ -864,6 +890,19 @@ func runBatchScenario(cfg BatchCfg, sc *BatchScript, seed int64) []Event {
 			}
 		}
 		b.log(Event{"ev": "runret", "act": actTok(r.a), "iserr": r.err != nil, "errs": errs, "ctxerr": isCtxErr(r.err, ctx)})
+		if cfg.After && b.keptResults != nil {
+			// the same node object runs again (as the next pass of a looping flow would); what post was handed in
+			// the first run belongs to that run and must look the same afterwards
+			items, results := b.keptItems, b.keptResults
+			b.warm = true
+			func() {
+				defer func() { recover() }()
+				flyt.Run(context.Background(), bn, b.store)
+			}()
+			b.warm = false
+			its, slots := b.observeLists(items, results)
+			b.log(Event{"ev": "bpostagain", "items": its, "slots": slots})
+		}
 	case <-time.After(15 * time.Second):
 		close(b.done)
 		b.log(Event{"ev": "hang", "after_ms": int(time.Since(start) / time.Millisecond)})
